@@ -4,7 +4,7 @@
    where "=" means the implementation's observation equals the model's, and props are the ids of
    the properties whose Spec the implementation's observation falsifies on this input. *)
 From Coq Require Import String.
-Require Import Base Node Command Glob Selector SelParse Policy PolicyIpld Chain Varint Generated Did.
+Require Import Base Node Command Glob Selector SelParse Policy PolicyIpld Chain Varint Generated Did Cbor Envelope Token SealProofs.
 Local Open Scope N_scope.
 
 Definition nstr (n : node) : str := match n with Str s => s | Bytes s => s | _ => [] end.
@@ -359,6 +359,94 @@ Definition eng_did (inp impl : node) : verdict :=
   | _ => bad
   end.
 
+(* ---------------- engine: token (C06, C07, C10) ---------------- *)
+(* canonical rendering of a token's fields, the same on the Go side: maps sorted bytewise, recursively *)
+Fixpoint ins_lex (e : str * node) (l : list (str * node)) : list (str * node) :=
+  match l with
+  | [] => [e]
+  | x :: r => if str_ltb (fst e) (fst x) then e :: l else x :: ins_lex e r
+  end.
+Fixpoint sort_maps (n : node) : node :=
+  match n with
+  | List l => List (map sort_maps l)
+  | Map m => Map (fold_right ins_lex [] (map (fun kv => (fst kv, sort_maps (snd kv))) m))
+  | _ => n
+  end.
+Definition odid (d : option did) : node := match d with Some x => Str (did_print x) | None => Null end.
+Definition oint (z : option Z) : node := match z with Some x => Int x | None => Null end.
+Definition dlg_fields (t : dtok) : node :=
+  Map [(lit "iss", Str (did_print (dk_iss t))); (lit "aud", Str (did_print (dk_aud t))); (lit "sub", odid (dk_sub t));
+       (lit "cmd", Str (dk_cmd t)); (lit "pol", sort_maps (pol_to_ipld (dk_pol t))); (lit "nonce", Bytes (dk_nonce t));
+       (lit "meta", sort_maps (Map (dk_meta t))); (lit "nbf", oint (dk_nbf t)); (lit "exp", oint (dk_exp t))].
+Definition inv_fields (t : itok) : node :=
+  Map [(lit "iss", Str (did_print (ik_iss t))); (lit "sub", Str (did_print (ik_sub t))); (lit "aud", odid (ik_aud t));
+       (lit "cmd", Str (ik_cmd t)); (lit "args", sort_maps (Map (ik_args t))); (lit "prf", List (map Link (ik_prf t)));
+       (lit "meta", sort_maps (Map (ik_meta t))); (lit "nonce", Bytes (ik_nonce t)); (lit "exp", oint (ik_exp t));
+       (lit "iat", oint (ik_iat t)); (lit "cause", match ik_cause t with Some c => Link c | None => Null end)].
+
+Definition fields_res {A} (f : A -> node) (r : res A) : node :=
+  match r with Ok a => f a | Err _ => List [Str (lit "err")] | Panic => List [Str (lit "panic")] end.
+Definition any_fields (a : anytok) : node :=
+  match a with ADlg t => List [Str (lit "dlg"); dlg_fields t] | AInv t => List [Str (lit "inv"); inv_fields t] end.
+Definition is_err_obs (n : node) : bool := match n with List [Str k] => str_eqb k (lit "err") | _ => false end.
+
+(* well-formedness of a decoded token as seen through its rendered fields (C10) *)
+Definition fields_wf (f : node) : bool :=
+  (12 <=? length (nstr (mget "nonce" f)))%nat &&
+  validb (nstr (mget "cmd" f)) &&
+  is_ok (did_parse (nstr (mget "iss" f))) &&
+  forallb (fun k => match mget k f with Int z => in53 z | Null => true | _ => false end) ["nbf"%string; "exp"%string; "iat"%string] &&
+  ints_in53 (mget "pol" f) && ints_in53 (mget "args" f).
+
+Definition eng_token (inp impl : node) : verdict :=
+  match inp with
+  (* seal -> unseal: payload node of the sealed token, fields of the original token;
+     impl = fields from [generic cbor; typed cbor; generic json; typed json] *)
+  | List [Str op; Str ty; payload; f0] =>
+      let fm := if str_eqb ty (lit "dlg") then fields_res dlg_fields (dlg_from_payload payload)
+                else fields_res inv_fields (inv_from_payload payload) in
+      let all_equal := forallb (fun o => node_eqb o f0) (nlist impl) && (length (nlist impl) =? 4)%nat in
+      let all_wf := forallb (fun o => is_err_obs o || fields_wf o) (nlist impl) in
+      {| model_obs := List [fm; fm; fm; fm];
+         violated := (if all_equal then [] else [lit "C07"]) ++ (if all_wf then [] else [lit "C10"]) |}
+  (* an envelope node offered to the three decoders, with the facts about the issuer key *)
+  | List [Str op; n; facts] =>
+      let hdr := mget "hdr" facts in
+      let spb := nstr (mget "spbytes" facts) in
+      let vfy := nbool (mget "verify" facts) in
+      let header_of (d : did) : res str := match hdr with Bytes h => Ok h | _ => Err 1 end in
+      let verify (d : did) (m sg : str) : bool := vfy && str_eqb m spb in
+      let enc_ok := match n with List (_ :: sp :: _) => match sp with Map _ => str_eqb (encode sp) spb | _ => true end | _ => true end in
+      let rd := env_decode verify header_of dtok dlg_from_payload dlg_tag n in
+      let ri := env_decode verify header_of itok inv_from_payload inv_tag n in
+      let rg := generic_decode verify header_of n in
+      let m := List [fields_res any_fields rg; fields_res dlg_fields rd; fields_res inv_fields ri; Bool enc_ok] in
+      let og := nth 0 (nlist impl) Null in
+      let od := nth 1 (nlist impl) Null in
+      let oi := nth 2 (nlist impl) Null in
+      let accepted := negb (is_err_obs og) || negb (is_err_obs od) || negb (is_err_obs oi) in
+      (* C06: nothing is accepted unless the signature verifies under the issuer's key with the announced
+         header, and what comes out is exactly the decoded content of that envelope *)
+      let sig_ok := vfy && match hdr, inspect n with Bytes h, Ok i => str_eqb h (in_hdr i) | _, _ => false end in
+      let same_content := node_eqb og (fields_res any_fields rg) && node_eqb od (fields_res dlg_fields rd) && node_eqb oi (fields_res inv_fields ri) in
+      let c06 := negb accepted || (sig_ok && same_content) in
+      (* C10: only well-formed tokens, of the requested type *)
+      let wf1 (o : node) := is_err_obs o || fields_wf o in
+      let wfg := match og with List [Str _; f] => fields_wf f | _ => is_err_obs og end in
+      let type_ok := (is_err_obs od || match inspect n with Ok i => str_eqb (in_tag i) dlg_tag | _ => false end) &&
+                     (is_err_obs oi || match inspect n with Ok i => str_eqb (in_tag i) inv_tag | _ => false end) in
+      let shape_ok := negb accepted || is_ok (inspect n) in
+      let c10 := wfg && wf1 od && wf1 oi && type_ok && shape_ok &&
+                 (is_err_obs od || is_ok rd) && (is_err_obs oi || is_ok ri) in
+      {| model_obs := m; violated := (if c06 then [] else [lit "C06"]) ++ (if c10 then [] else [lit "C10"]) |}
+  (* a Go number offered as an argument / metadata value: stored exactly or rejected *)
+  | List [Str op; Int v] =>
+      let m := if in53 v then List [Str (lit "ok"); Int v] else List [Str (lit "err")] in
+      {| model_obs := m;
+         violated := if is_err_obs impl || node_eqb impl (List [Str (lit "ok"); Int v]) then [] else [lit "C10"] |}
+  | _ => bad
+  end.
+
 (* ---------------- engine: chain (C01-C05) ---------------- *)
 
 Definition dlg_of_node (n : node) : option dlg :=
@@ -462,7 +550,7 @@ Definition engines : list (str * (node -> node -> verdict)) :=
     (lit "selector", eng_selector);
     (lit "policy", eng_policy);
     (lit "chain", eng_chain);
-    (lit "selparse", eng_selparse); (lit "did", eng_did); (lit "policyipld", eng_policyipld) ].
+    (lit "selparse", eng_selparse); (lit "token", eng_token); (lit "did", eng_did); (lit "policyipld", eng_policyipld) ].
 
 Fixpoint find_engine (e : str) (l : list (str * (node -> node -> verdict))) : option (node -> node -> verdict) :=
   match l with
